@@ -156,8 +156,8 @@ DETACH = {'Table.setattr-vector': 'a', 'Table.setattr-list': 'a', 'Table.setattr
 
 
 # near-duplicates of other alphabet entries: exercised in single-step histories and in the thorough tier only
-LIGHT = {'Vector.neg', 'Vector.T', 'Vector.cast', 'Vector.fillna', 'Vector.getitem-slice-full', 'Vector.setitem-negint',
-         'Table.join', 'Table.full_join', 'Table.window', 'Table.eq-scalar', 'Table.setitem-cell-name',
+LIGHT = {'Vector.T', 'Vector.cast', 'Vector.fillna', 'Vector.getitem-slice-full', 'Vector.setitem-negint',
+         'Table.join', 'Table.full_join', 'Table.window', 'Table.setitem-cell-name',
          'Table.view-setitem-name', 'Table.setitem-row-plain', 'Table.getitem-indexvec', 'Vector.getitem-index'}
 
 
@@ -235,7 +235,7 @@ def _histories(n, core, vec_targets, reads=True):
 def cases(tier, seed):
     if tier == 'quick':
         plan = [(1, False, None, list(SETUPS), True),
-                (2, 'nolight', ('v0', 'v2'), ['rshift', 'ctor-list'], False)]
+                (2, 'nolight', ('v0', 'v2'), ['rshift', 'ctor-list', 'dict-of-lists'], False)]
     else:
         plan = [(1, False, None, list(SETUPS), True),
                 (2, False, None, list(SETUPS), True),
@@ -445,7 +445,12 @@ def evaluate(case):
             else:
                 p = _path(graph, tgt, n)
                 rel = 'unrelated' if not p else p[-1]     # the derivation through which the changed object is reached
-                key = f'C01:leak:{cls}:{rel}'
+                if rel.endswith('~nested-vector'):
+                    # `>>` of unequal lengths returns a plain vector holding the caller's own vectors: every write
+                    # form shows through it; one key per call site (Vector.__rshift__ / Table.__rshift__)
+                    key = 'C01:leak:' + rel.split('-')[0] + '~nested-vector'
+                else:
+                    key = f'C01:leak:{cls}:{rel}'
                 what = (f'{hist}  writes through {tgt} only' + (f' (and raised {exc.__name__})' if exc else '') +
                         f', but {n} changed (related by: {"+".join(p) if p else "nothing"})')
             fails.append(Fail(key, what, snap[n], now[n]))
@@ -480,7 +485,7 @@ if __name__ == '__main__':
               'live column handle/attribute and indexed-attribute assignment/rename, incl. refused variants), pure reads in '
               'last position; after every step every live object is compared with its pre-step snapshot under the frame rule '
               'of the statement. distinct = distinct (setup, op-name sequence) containing a write',
-         bound=lambda tier: ({'max_steps': 2, 'len1_setups': 5, 'len2_setups': 2, 'len2_vector_targets': 'v0,v2+derived', 'len2_reads': False, 'len2_alphabet': 'minus 15 near-duplicate ops'}
+         bound=lambda tier: ({'max_steps': 2, 'len1_setups': 5, 'len2_setups': 3, 'len2_vector_targets': 'v0,v2+derived', 'len2_reads': False, 'len2_alphabet': 'minus 13 near-duplicate ops'}
                              if tier == 'quick' else
                              {'max_steps': 3, 'len1_setups': 5, 'len2_setups': 5, 'len3_setups': 2,
                               'len3_alphabet': 'core subset (28 ops)'}),
